@@ -92,7 +92,7 @@ def run(tier, seed, replay=None):
             raise Infra("vdrv handoff failed rc=%s: %s" % (rc, err[-2000:]))
         rows = vlib.read_ndjson(trace)
         rt = vlib.tlc(sc, "HandoffTrace", "HandoffTrace.cfg", workers=1, timeout=1800)
-        if len(rows) < len(cases) and not any(x.get("hung") for x in rows):
+        if len(rows) < len(cases) and not any(x.get("hung") or x.get("out_len", 0) < x.get("want_len", 0) for x in rows):
             raise Infra("handoff driver stopped after %d of %d cases" % (len(rows), len(cases)))
         if rt.rc != 0 or rt.depth - 1 != len(rows):
             raise Infra("TLC failed on the handoff trace (rc=%s, judged %d of %d):\n%s" % (rt.rc, rt.depth - 1, len(rows), rt.out[-2000:]))
